@@ -45,7 +45,11 @@ def gen_cell(rng, col, codec, pkg):
             return rng.choice(WORDS)
         n = rng.choice([1, 2, 5, 30, rng.randrange(1, 200)])
         return tweak(rng, iu.text(rng, codec, n), special)
-    fc = pkg[col[2:]]
+    fc = pkg.get(col[2:]) if col.startswith('DE') else None
+    if fc is None:
+        # a column of the configured output list that names no element of the configuration in force: still a column of
+        # the table — a short text value
+        return iu.text(rng, 'ascii', rng.randrange(1, 9)).strip() or 'x'
     pyt = fc.get('field_python_type')
     if pyt in ('int', 'long'):
         w = fc['field_length']
@@ -145,11 +149,26 @@ def impl_eval(case):
                         json.dump(site, open(os.path.join(d, 'site', 'cardutil.json'), 'w'))
                         os.environ['CARDUTIL_CONFIG'] = os.path.join(d, 'site')
                 try:
-                    with contextlib.redirect_stdout(io.StringIO()):
-                        mci_csv_to_ipm.cli_run(in_filename=p, out_filename=p + '.ipm', **ipm_enc_w,
-                                               no1014blocking=not blocked, **csv_enc, **extra)
-                        mci_ipm_to_csv.cli_run(in_filename=p + '.ipm', out_filename=p + '.out.csv', **ipm_enc_r,
-                                               no1014blocking=not blocked, **csv_out, **extra)
+                    with contextlib.redirect_stdout(io.StringIO()), contextlib.redirect_stderr(io.StringIO()):
+                        if case.get('argv'):
+                            # through the tools' own ARGUMENT PARSERS, the IPM encoding named as the caller spells it
+                            # (any name Python knows the codec by: 'latin-1', 'ibm500', 'IBM037', ...)
+                            name = case['argv']
+                            sw = [] if blocked else ['--no1014blocking']
+                            try:
+                                a1 = mci_csv_to_ipm.cli_parser().parse_args(
+                                    [p, '-o', p + '.ipm', '--in-encoding', 'utf-8', '--out-encoding', name] + sw)
+                                a2 = mci_ipm_to_csv.cli_parser().parse_args(
+                                    [p + '.ipm', '-o', p + '.out.csv', '--in-encoding', name, '--out-encoding', 'utf-8'] + sw)
+                            except SystemExit as se:
+                                raise RuntimeError(f'the argument parser refused the options (exit {se.code})')
+                            mci_csv_to_ipm.cli_run(**vars(a1))
+                            mci_ipm_to_csv.cli_run(**vars(a2))
+                        else:
+                            mci_csv_to_ipm.cli_run(in_filename=p, out_filename=p + '.ipm', **ipm_enc_w,
+                                                   no1014blocking=not blocked, **csv_enc, **extra)
+                            mci_ipm_to_csv.cli_run(in_filename=p + '.ipm', out_filename=p + '.out.csv', **ipm_enc_r,
+                                                   no1014blocking=not blocked, **csv_out, **extra)
                 finally:
                     if case.get('cfgfile') == 'env':
                         if saved_env is None:
@@ -234,7 +253,7 @@ def explore(run, tier):
     rng = common.rng_for(run.seed, PROP)
     pkg = iu.pkg_config()
     cols = columns()
-    carriers = [c for c in cols if c.startswith('DE') and pkg[c[2:]].get('field_processor') == 'PDS']
+    carriers = [c for c in cols if c.startswith('DE') and pkg.get(c[2:], {}).get('field_processor') == 'PDS']
     pdscols = [c for c in cols if c.startswith('PDS')]
     cases = []
     n = 300 if tier == 'quick' else 3000
@@ -265,6 +284,12 @@ def explore(run, tier):
         for nb in ('none', 'zero', 'omit'):
             cases.append({'rows': rows, 'cols': tcols, 'codec': codec, 'b': 1, 'cli': False, 'nb': nb})
             cases.append({'rows': rows[:3], 'cols': tcols, 'codec': codec, 'b': 1, 'cli': False, 'nb': nb, 'samefile': bool(i % 2)})
+    # the commands through their own argument parsers, the IPM encoding named by an ALIAS of the codec
+    for name, canon in (('latin-1', 'latin_1'), ('iso-8859-1', 'latin_1'), ('ibm500', 'cp500'), ('IBM037', 'cp037'),
+                        ('cp500', 'cp500'), ('L1', 'latin_1')):
+        for b in (0, 1):
+            rows = [{'MTI': '1240', 'DE2': '5' * 16, 'DE42': f'MERCHANT {j:06d}', 'DE38': f'A{j:04d} '} for j in range(3)]
+            cases.append({'rows': rows, 'cols': ['MTI', 'DE2', 'DE38', 'DE42'], 'codec': canon, 'b': b, 'cli': True, 'argv': name})
     # through the COMMAND entry points on real files: tables whose records are mostly blanks (0x40 in EBCDIC), so that an
     # unblocked file has 0x40 0x40 where block trailers would be (offsets 1012-1013, 2026-2027, ...): the options given
     # on the command line decide the format, not the content
